@@ -108,3 +108,83 @@ func SellersEnds(pat, text string, match func(pi int, c byte) bool) []int {
 	}
 	return prev
 }
+
+// LCSBanded is LCS restricted to the cells with |i-j| <= band.  It is exact
+// whenever some optimal alignment stays inside the band, which is guaranteed when
+// the two sequences are known to be at most band/2 edits apart (an alignment with
+// score >= n-k has at most 2k gap columns).  Memory O(band), time O(n*band).
+func LCSBanded(a, b string, band int, same func(x, y byte) bool) (lcs, alilen int) {
+	n, m := len(a), len(b)
+	if d := n - m; d > band || -d > band {
+		return -1, -1
+	}
+	type cell struct{ s, l int }
+	const none = -1 << 30
+	better := func(x, y cell) cell {
+		if x.s > y.s || (x.s == y.s && x.l < y.l) {
+			return x
+		}
+		return y
+	}
+	w := 2*band + 1
+	prev := make([]cell, w)
+	cur := make([]cell, w)
+	// row 0: cells (0, j) for j in [0, band]
+	for k := range prev {
+		prev[k] = cell{none, 0}
+	}
+	for j := 0; j <= band && j <= m; j++ {
+		prev[j+band] = cell{0, j} // index k = j - i + band
+	}
+	for i := 1; i <= n; i++ {
+		for k := range cur {
+			cur[k] = cell{none, 0}
+		}
+		for k := 0; k < w; k++ {
+			j := i + k - band
+			if j < 0 || j > m {
+				continue
+			}
+			best := cell{none, 0}
+			if j == 0 {
+				best = cell{0, i}
+			} else {
+				// diagonal: (i-1, j-1) has the same k
+				if d := prev[k]; d.s > none/2 {
+					if same(a[i-1], b[j-1]) {
+						d.s++
+					}
+					d.l++
+					best = better(d, best)
+				}
+				// left: (i, j-1) is k-1 in the current row
+				if k > 0 {
+					if l := cur[k-1]; l.s > none/2 {
+						l.l++
+						best = better(l, best)
+					}
+				}
+			}
+			// up: (i-1, j) is k+1 in the previous row
+			if j > 0 || true {
+				if k+1 < w {
+					if u := prev[k+1]; u.s > none/2 && j >= 0 {
+						u.l++
+						if j == 0 {
+							// first column already set to (0,i)
+						} else {
+							best = better(u, best)
+						}
+					}
+				}
+			}
+			cur[k] = best
+		}
+		prev, cur = cur, prev
+	}
+	k := m - n + band
+	if k < 0 || k >= w || prev[k].s <= none/2 {
+		return -1, -1
+	}
+	return prev[k].s, prev[k].l
+}
